@@ -51,6 +51,13 @@ pub enum Ty {
     Param,
     /// a generic struct of the universe instantiated at u16
     GenericInst(usize),
+    /// the same generic struct instantiated at `Option<u16>`: the parameter field is nil-capable although the
+    /// macro cannot see an `Option` in its declared type (it has to ask `Encode::is_nil` / `Decode::nil`)
+    GenericInstOpt(usize),
+    /// harness type `OwnNil`: a user type whose `Encode::is_nil` / `Decode::nil` are overridden (no attribute)
+    NilOwn,
+    /// `crate::rt::OptU8`, a type alias of `Option<u8>` (nil-capable, not syntactically an `Option`)
+    OptAlias,
 }
 
 #[derive(Clone, Debug)]
@@ -122,7 +129,7 @@ pub fn ty_needs_lifetime(t: &Ty, u: &Universe) -> bool {
     match t {
         Ty::Str | Ty::CowStr | Ty::BytesSlice | Ty::CowBytes | Ty::ByteSliceRef => true,
         Ty::VecOf(x) | Ty::BoxOf(x) | Ty::MapU8(x) => ty_needs_lifetime(x, u),
-        Ty::Struct(i) | Ty::Enum(i) | Ty::GenericInst(i) => def_needs_lifetime(&u.defs[*i], u),
+        Ty::Struct(i) | Ty::Enum(i) | Ty::GenericInst(i) | Ty::GenericInstOpt(i) => def_needs_lifetime(&u.defs[*i], u),
         _ => false
     }
 }
@@ -141,7 +148,19 @@ pub fn must_be_b(t: &Ty, u: &Universe) -> bool {
 }
 
 /// Can this type stand in an `Option<_>`-less field that is still "optional" (nil-capable)?
-pub fn ty_has_nil(t: &Ty) -> bool { matches!(t, Ty::NilWith | Ty::NilFns) }
+pub fn ty_has_nil(t: &Ty) -> bool { matches!(t, Ty::NilWith | Ty::NilFns | Ty::NilOwn | Ty::OptAlias) }
+
+/// Can a value of this type encode as a bare null? Such a type must not stand directly inside an `Option<_>` field:
+/// `Some(x)` with `x` encoding as null is indistinguishable from `None` on the wire (the "Option directly in an
+/// Option" shape that is lossy by construction) - e.g. a transparent newtype around an optional field.
+pub fn can_encode_null(t: &Ty, u: &Universe) -> bool {
+    match t {
+        Ty::NilWith | Ty::NilFns | Ty::NilOwn | Ty::OptAlias => true,
+        Ty::BoxOf(x) => can_encode_null(x, u),
+        Ty::Struct(i) => match &u.defs[*i] { Def::Struct(s) if s.transparent => s.fields.iter().any(|f| f.optional || can_encode_null(&f.ty, u)), _ => false },
+        _ => false
+    }
+}
 
 const TAGS: [u64; 9] = [0, 7, 23, 24, 255, 256, 55799, 4294967296, 18446744073709551615];
 
@@ -156,11 +175,11 @@ impl Default for GenCfg { fn default() -> Self { GenCfg { allow_lifetimes: true,
 
 fn leaf_ty(r: &mut Rng, cfg: &GenCfg) -> Ty {
     loop {
-        let t = match r.below(24) {
+        let t = match r.below(27) {
             0 => Ty::U8, 1 => Ty::U16, 2 => Ty::U32, 3 => Ty::U64, 4 => Ty::I8, 5 => Ty::I16, 6 => Ty::I32, 7 => Ty::I64,
             8 => Ty::Bool, 9 => Ty::Char, 10 => Ty::F32, 11 => Ty::F64, 12 | 13 => Ty::String, 14 => Ty::Str, 15 => Ty::CowStr,
             16 => Ty::BytesVec, 17 => Ty::BytesSlice, 18 => Ty::BytesArr4, 19 => Ty::CowBytes, 20 => Ty::ByteVec, 21 => Ty::ByteSliceRef,
-            22 => Ty::NilWith, _ => Ty::NilFns
+            22 => Ty::NilWith, 23 => Ty::NilFns, 24 => Ty::NilOwn, 25 => Ty::OptAlias, _ => Ty::U8
         };
         let lt = matches!(t, Ty::Str | Ty::CowStr | Ty::BytesSlice | Ty::CowBytes | Ty::ByteSliceRef);
         if lt && !cfg.allow_lifetimes { continue }
@@ -174,6 +193,8 @@ fn field_ty(r: &mut Rng, u: &Universe, cfg: &GenCfg, depth: usize) -> Ty {
     let structs: Vec<usize> = u.defs.iter().enumerate().filter(|(_, d)| matches!(d, Def::Struct(s) if !s.generic)).map(|(i, _)| i).collect();
     let enums: Vec<usize> = u.defs.iter().enumerate().filter(|(_, d)| matches!(d, Def::Enum(_))).map(|(i, _)| i).collect();
     let generics: Vec<usize> = u.defs.iter().enumerate().filter(|(_, d)| matches!(d, Def::Struct(s) if s.generic)).map(|(i, _)| i).collect();
+    // a generic struct that exists in the universe is worth instantiating (at u16 and at Option<u16>)
+    if !generics.is_empty() && depth == 0 && r.chance(30) { let i = *r.pick(&generics); return if r.bool_() { Ty::GenericInstOpt(i) } else { Ty::GenericInst(i) } }
     match r.below(20) {
         0 ..= 10 => leaf_ty(r, cfg),
         11 | 12 if !structs.is_empty() => Ty::Struct(*r.pick(&structs)),
@@ -181,7 +202,7 @@ fn field_ty(r: &mut Rng, u: &Universe, cfg: &GenCfg, depth: usize) -> Ty {
         15 if depth < 2 => Ty::VecOf(Box::new(field_ty(r, u, cfg, depth + 1))),
         16 if depth < 2 => Ty::BoxOf(Box::new(field_ty(r, u, cfg, depth + 1))),
         17 if depth < 2 => Ty::MapU8(Box::new(field_ty(r, u, cfg, depth + 1))),
-        18 if !generics.is_empty() => Ty::GenericInst(*r.pick(&generics)),
+        18 if !generics.is_empty() => { let i = *r.pick(&generics); if r.bool_() { Ty::GenericInstOpt(i) } else { Ty::GenericInst(i) } }
         _ => leaf_ty(r, cfg)
     }
 }
@@ -189,7 +210,7 @@ fn field_ty(r: &mut Rng, u: &Universe, cfg: &GenCfg, depth: usize) -> Ty {
 /// `with = minicbor::bytes` types and custom-codec types cannot be nested inside Vec/Box/Map (the codec attribute applies to the field).
 fn contains_field_level_codec(t: &Ty) -> bool {
     match t {
-        Ty::BytesVec | Ty::BytesSlice | Ty::BytesArr4 | Ty::CowBytes | Ty::NilWith | Ty::NilFns => true,
+        Ty::BytesVec | Ty::BytesSlice | Ty::BytesArr4 | Ty::CowBytes | Ty::NilWith | Ty::NilFns | Ty::NilOwn | Ty::OptAlias => true,
         Ty::VecOf(x) | Ty::BoxOf(x) | Ty::MapU8(x) => contains_field_level_codec(x),
         _ => false
     }
@@ -228,8 +249,10 @@ fn gen_fields(r: &mut Rng, u: &Universe, cfg: &GenCfg, enc: Encoding, shape: Sha
         let mut ty = if many { r.pick(&[Ty::U8, Ty::Bool, Ty::U16]).clone() } else { sanitize(field_ty(r, u, cfg, 0)) };
         if param && !used_param && (k == 0 || r.chance(30)) { ty = Ty::Param; used_param = true }
         let nil_capable = ty_has_nil(&ty);
-        let optional = !nil_capable && ty != Ty::Param && (all_optional || many || r.chance(45));
         let mut ty = ty;
+        // a type that can itself encode as null cannot be wrapped in an Option (lossy by construction)
+        if all_optional && !nil_capable && can_encode_null(&ty, u) { ty = Ty::U8 }
+        let optional = !nil_capable && ty != Ty::Param && !can_encode_null(&ty, u) && (all_optional || many || r.chance(45));
         if all_optional && nil_capable { /* nil-capable counts as optional */ }
         if all_optional && ty == Ty::Param { ty = Ty::U8 }
         let tag = if r.chance(18) { Some(*r.pick(&TAGS)) } else { None };
@@ -253,14 +276,14 @@ fn gen_struct(r: &mut Rng, u: &Universe, cfg: &GenCfg, name: String) -> StructDe
     let shape = match r.below(10) { 0 => Shape::Unit, 1 ..= 3 => Shape::Tuple, _ => Shape::Named };
     let encoding = match r.below(5) { 0 | 1 => None, 2 => Some(Encoding::Array), _ => Some(Encoding::Map) };
     let enc = encoding.unwrap_or(Encoding::Array);
-    let generic = cfg.allow_generic && shape != Shape::Unit && r.chance(6);
+    let generic = cfg.allow_generic && shape != Shape::Unit && r.chance(10);
     let transparent = !generic && shape != Shape::Unit && r.chance(7);
     if transparent {
         let ty = sanitize(field_ty(r, u, cfg, 1));
         let ty = if contains_field_level_codec(&ty) && ty_has_nil(&ty) { Ty::U32 } else { ty };
         let b = (matches!(ty, Ty::CowStr | Ty::CowBytes) && r.chance(60)) || must_be_b(&ty, u);
         return StructDef { name, shape, encoding: None, tag: None, transparent: true, generic: false,
-                           fields: vec![Field { idx: r.below(3) as u32, b, ty, optional: r.chance(20), tag: None, skip: false, name: "inner".into(), long_attr: false }] }
+                           fields: vec![Field { idx: r.below(3) as u32, b, optional: r.chance(20) && !can_encode_null(&ty, u), ty, tag: None, skip: false, name: "inner".into(), long_attr: false }] }
     }
     let fields = gen_fields(r, u, cfg, enc, shape, 7, "f", false, generic);
     let tag = if r.chance(15) { Some(*r.pick(&TAGS)) } else { None };
@@ -346,6 +369,7 @@ fn fresh_index(r: &mut Rng, fields: &[Field], enc: Encoding, also_used: &[u32]) 
 fn new_optional_field(r: &mut Rng, u: &Universe, cfg: &GenCfg, fields: &[Field], enc: Encoding, name: String, also_used: &[u32]) -> Field {
     let mut ty = sanitize(field_ty(r, u, cfg, 0));
     if ty == Ty::Param { ty = Ty::U8 }
+    if !ty_has_nil(&ty) && can_encode_null(&ty, u) { ty = Ty::U8 }
     let tag = if r.chance(35) { Some(*r.pick(&TAGS)) } else { None };
     let b = match ty { Ty::CowStr | Ty::CowBytes => r.chance(60), Ty::Str | Ty::BytesSlice | Ty::ByteSliceRef => r.chance(50), _ => must_be_b(&ty, u) };
     let nil = ty_has_nil(&ty);
@@ -530,7 +554,7 @@ pub fn gen_pair(r: &mut Rng, cfg: &GenCfg, focus: usize, prefix: &str) -> Option
         }
         4 => {
             let mut s = plain_struct(r, &Universe { defs: vec![] }, cfg, format!("{}T0", prefix));
-            if !s.fields.iter().any(|f| !f.skip && f.optional) || s.fields.iter().filter(|f| !f.skip).count() < 2 {
+            if !s.fields.iter().any(|f| !f.skip && (f.optional || ty_has_nil(&f.ty))) || s.fields.iter().filter(|f| !f.skip).count() < 2 {
                 let f = new_optional_field(r, &Universe { defs: vec![] }, cfg, &s.fields, s.enc(), "doomed".into(), &[]);
                 s.fields.push(f);
                 if s.fields.iter().filter(|f| !f.skip).count() < 2 { let f2 = new_optional_field(r, &Universe { defs: vec![] }, cfg, &s.fields, s.enc(), "other".into(), &[]); s.fields.push(f2) }
@@ -538,7 +562,7 @@ pub fn gen_pair(r: &mut Rng, cfg: &GenCfg, focus: usize, prefix: &str) -> Option
             let u = Universe { defs: vec![Def::Struct(s)] };
             let mut n = u.clone();
             if let Def::Struct(s) = &mut n.defs[0] {
-                let cands: Vec<usize> = s.fields.iter().enumerate().filter(|(_, f)| !f.skip && f.optional).map(|(i, _)| i).collect();
+                let cands: Vec<usize> = s.fields.iter().enumerate().filter(|(_, f)| !f.skip && (f.optional || ty_has_nil(&f.ty))).map(|(i, _)| i).collect();
                 let k = *r.pick(&cands);
                 log.push(format!("{}: drop optional field #{}", s.name, s.fields[k].idx));
                 s.fields.remove(k);
